@@ -30,6 +30,7 @@ DEVIATIONS = {
     'nonflat_kwds_order': ('C09', dict(SigIds={30}, IgnIds={0}, KwNames={'x', 'z'}, PVals={1}, MAXP=1, MAXK=2)),
     'ignored_varkw_null_marker': ('C11', dict(SigIds={25}, IgnIds={8}, KwNames={'z'}, PVals={1}, MAXP=1, MAXK=1)),
     'starstar_pops_kwonly': ('C11', dict(SigIds={34}, IgnIds={6}, KwNames={'k'}, PVals={1, 2}, MAXP=1, MAXK=1)),
+    'stringmap_bare_str': ('C10', dict(SigIds={4}, IgnIds={0}, KwNames={'z'}, PVals={1, 7}, MAXP=1, MAXK=0)),
 }
 
 
@@ -147,6 +148,8 @@ def signature(t, v, pid):
     return {'engine': 'key', 'clauses': v[1], 'varkw_only_ignore': varkw_only, 'enc': t['km']['enc'], 'flat': t['km']['flat'],
             'mode': t['meta']['mode'], 'ignore': t['meta']['ignore'], 'callable': t['meta'].get('kind', 'plain'),
             'bare_ignore': bool(t['meta'].get('bare')),
+            # the whole key is one bare positional value (variadic-only signature, one positional, no keyword)
+            'lone_positional': not t['sig']['pos'] and not t['sig']['ko'] and len(e['call']['p']) == 1 and not e['call']['k'],
             'has_varargs': t['sig']['va'], 'has_varkw': t['sig']['vk'], 'kwonly': len(t['sig']['ko']) > 0,
             'exc': e['exc']}
 
@@ -276,16 +279,34 @@ def check_C17(tier):
     rep = common.Report(pid, tier)
     thorough = tier == 'thorough'
     work = common.scratch('key17')
-    consts = base_consts(tier, {0, 2, 9}, sigs=None if thorough else {2, 6, 14, 26, 30, 34, 47})
+    # values of two types (an int and a string): the typed part of a key must not depend on the spelling either
+    consts = base_consts(tier, {0, 2, 9}, sigs=None if thorough else {2, 6, 14, 26, 30, 34, 47}, pvals=None if thorough else {1, 5})
     groups, cat_states = tlc_catalogue(consts, work)
+    # a second, small catalogue: one- and two-parameter functions called with a long string (keys longer than 200
+    # characters) and with an instance of a user class
+    # (one parameter: with two long arguments the key would exceed a file name's 255 characters, which dir_archive
+    # silently drops - C03's known finding, not a matter of stability across sessions)
+    c2 = base_consts(tier, {0}, sigs={1}, pvals={1, 8, 9})
+    c2['MAXK'] = 1
+    c2['MAXP'] = 1
+    g2, st2 = tlc_catalogue(c2, work)
+    cat_states += st2
     mcs = []
     kms = [k for k in all_kms() if not (k['enc'] == 'raw' and not k['flat'])]
     variants = [dict(serializer='pickle', algorithm='md5'), dict(serializer=None, algorithm='sha1'),
-                dict(serializer='dill', algorithm='sha256')]
+                dict(serializer='dill', algorithm='sha256'), dict(serializer='dill-module', algorithm='md5')]
     items = []
     for g in groups:
         for n, km in enumerate(kms):
-            items.append({'group': g, 'km': km, 'variant': variants[(n + g['sid']) % len(variants)]})
+            items.append({'group': g, 'km': km, 'variant': variants[(n + g['sid']) % 3]})
+    for g in g2:
+        for n, km in enumerate(kms):
+            if km['typed'] and km['sentinel']:
+                continue
+            for v in (variants if km['enc'] == 'pickle' else [variants[n % 3]]):
+                if km['enc'] == 'pickle' and v['serializer'] in ('pickle', None) and not thorough and n % 2:
+                    continue
+                items.append({'group': g, 'km': km, 'variant': v, 'objects': True})
     # three sessions compute every key
     seeds = [0, 1, 'random']
     from concurrent.futures import ThreadPoolExecutor
@@ -294,11 +315,11 @@ def check_C17(tier):
     # writer / reader sessions on persistent archives, for a sample of the items
     rng = random.Random(common.seed() + 17)
     arch_items = []
-    pick = items if thorough else rng.sample(items, min(len(items), 240))
+    pick = items if thorough else rng.sample([i for i in items if not i.get('objects')], min(len(items), 200)) + [i for i in items if i.get('objects')][::2]
     for n, it in enumerate(pick):
         if it['km']['enc'] == 'raw':
             kinds = ['file', 'dir']
-        elif it['km']['enc'] == 'pickle' and it['variant']['serializer'] in ('pickle', 'dill'):
+        elif it['km']['enc'] == 'pickle' and it['variant']['serializer'] in ('pickle', 'dill', 'dill-module'):
             kinds = ['file', 'dir']          # bytes keys: the sqlite fallback would accept them, keep to file/dir
         else:
             kinds = ['file', 'dir', 'sql']
@@ -320,7 +341,12 @@ def check_C17(tier):
         del kd.EVALS[:]
         t = kd.run_group(klepto, it['group'], it['km'], 'keygen', it['variant'])
         for ci, e in enumerate(t['events']):
-            e['khex'] = e['khex'] + [s[n]['khex'][ci] for s in sess]
+            if it.get('objects'):
+                # (this process imports the user class from a module, the sessions define it in __main__: only the
+                # sessions are compared with each other)
+                e['khex'] = [s[n]['khex'][ci] for s in sess]
+            else:
+                e['khex'] = e['khex'] + [s[n]['khex'][ci] for s in sess]
             if n in later:
                 e['later'] = [kinds[ci] for kinds in later[n]]
         traces.append(t)
